@@ -329,17 +329,50 @@ fn render_stmt(s: &Json, ind: usize) -> String {
     }
 }
 
+/// Replace the identifier `from` (whole words only) by `to`.
+fn rename_ident(text: &str, from: &str, to: &str) -> String {
+    let is_id = |c: char| c.is_ascii_alphanumeric() || c == '_';
+    let mut out = String::new();
+    let mut rest = text;
+    while let Some(pos) = rest.find(from) {
+        let before_ok = rest[..pos].chars().next_back().is_none_or(|c| !is_id(c));
+        let after_ok = rest[pos + from.len()..].chars().next().is_none_or(|c| !is_id(c));
+        out.push_str(&rest[..pos]);
+        out.push_str(if before_ok && after_ok { to } else { from });
+        rest = &rest[pos + from.len()..];
+    }
+    out.push_str(rest);
+    out
+}
+
+/// A function definition; leading `glet` statements become global `let`s in front of it, their
+/// names made unique per function (`g0` -> `g0_<function>`).
 pub fn render_function(name: &str, params: &Json, ret: &Json, body: &Json) -> String {
     let ps: Vec<String> = arr(params)
         .iter()
         .map(|p| format!("{} {}", st(&arr(p)[0]), render_type(&arr(p)[1])))
         .collect();
-    format!(
+    let stmts = arr(body);
+    let nglob = stmts.iter().take_while(|s| st(&arr(s)[0]) == "glet").count();
+    let mut text = String::new();
+    let mut globals = Vec::new();
+    for g in &stmts[..nglob] {
+        let n = arr(g);
+        let gname = st(&n[1]).to_string();
+        let _ = writeln!(text, "let {gname} = {}", render_expr(&arr(&n[2])[0]));
+        globals.push(gname);
+    }
+    let _ = write!(
+        text,
         "function {name}({}) {} {{\n    {}\n}}\n",
         ps.join(", "),
         render_type(ret),
-        render_stmts(arr(body), 1)
-    )
+        render_stmts(&stmts[nglob..], 1)
+    );
+    for g in globals {
+        text = rename_ident(&text, &g, &format!("{g}_{name}"));
+    }
+    text
 }
 
 /// The outermost operator of a function body, for failure fingerprints.
